@@ -458,19 +458,19 @@ def oracle(ctx, hints, broken):
             v = None
         n += 1
         if v:
-            viol.append(v)
+            C.push(viol, v)
     for s in osets_upto(alpha, 3):
         for t in lists_upto(alpha, 3 if not deep else 4):
             for kind in (0, 2):
                 n += 1
                 v = check_pair(OS, s, t, kind)
                 if v:
-                    viol.append(v)
+                    C.push(viol, v)
     for _ in range(1500 if not deep else 15000):
         n += 1
         v = check_history(OS, gen_history(rng, alpha + [4]))
         if v:
-            viol.append(v)
+            C.push(viol, v)
             if len(viol) > 40:
                 break
     ds = all_dicts([0, 1, 2], [0, 1, 2]) + [rng.choice(all_dicts(alpha, alpha)) for _ in range(300)] if False else all_dicts([0, 1, 2], [0, 1, 2])
@@ -483,14 +483,14 @@ def oracle(ctx, hints, broken):
         x = [(k, rng.randint(0, 9)) for k in rng.sample(alpha + [4], 3)]
         v = check_bij(B, OS, d, l, x, f2=rng.choice(inj3), U=rng.choice(subsets))
         if v:
-            viol.append(v)
+            C.push(viol, v)
     for f2 in inj3:                                   # exhaustive composition law on 3 names
         for d in inj3:
             for U in ([0, 1, 2], [0, 1], [1, 2], [0, 2], [0], [1], [2]):
                 n += 1
                 v = check_bij(B, OS, d, [], [], f2=f2, U=U)
                 if v:
-                    viol.append(v)
+                    C.push(viol, v)
     return dict(evaluations=n, violations=viol,
                 rule='python set/list/dict references: exhaustive operand pairs (4 letters, len<=3/4), random histories, all dicts on 3 names, '
                      'exhaustive composition law on 3 names over 7 universes, random 4/5-name maps')
